@@ -44,8 +44,11 @@ def check(run, repo, world):
         "are returned on exactly the byte sets the transcribed limits give "
         "(1-byte values and scale bytes), and MASK is tested before TMASK "
         "before validity; (R-INVERSE) an overridden decoder has an encoder "
-        "at least as derived.  NOT decided: numeric decode identities for "
-        "multi-byte values.")
+        "at least as derived; (R-DECODE-FORM) each decoder family's "
+        "raw_to_value, read as an algebraic denotation of the raw bytes "
+        "(big-endian atoms with signedness, scale, offset, version digits, "
+        "C string) on every path, equals the documented encoding under "
+        "equivalent conditions.")
     run.assumptions += ["spec/memory_map.json is a faithful transcription",
                         "bytes.decode('ascii') raises UnicodeDecodeError for "
                         "bytes >= 0x80"]
